@@ -691,7 +691,10 @@ pub mod verif_hooks {
     static OFFSET_US: Cell<u64> = Cell::new(0);
     static SLEPT_MS: Cell<u64> = Cell::new(0);
     static NOW_CALLS: Cell<u64> = Cell::new(0);
+    static REAL_TIME: Cell<bool> = Cell::new(false);
   }
+  // On the calling thread the loop's clock is the machine's clock again (the real driver really sleeps in its poll).
+  pub fn clock_use_real_time(on: bool) { REAL_TIME.with(|r| r.set(on)); }
   pub fn clock_reset() { OFFSET_US.with(|o| o.set(0)); SLEPT_MS.with(|o| o.set(0)); NOW_CALLS.with(|o| o.set(0)); }
   pub fn clock_advance_us(us: u64) { OFFSET_US.with(|o| o.set(o.get() + us)); }
   pub fn clock_now_us() -> u64 { OFFSET_US.with(|o| o.get()) }
@@ -702,6 +705,7 @@ pub mod verif_hooks {
   impl Instant {
     pub fn now() -> std::time::Instant {
       NOW_CALLS.with(|o| o.set(o.get() + 1));
+      if REAL_TIME.with(|r| r.get()) { return std::time::Instant::now(); }
       BASE.with(|b| *b) + Duration::from_micros(OFFSET_US.with(|o| o.get()))
     }
   }
